@@ -129,7 +129,7 @@ def tree_cases(run, rng, k):
         # superslab numbers of four digits (file names halo_info_1000.asdf ...) next to three-digit ones
         inds = inds + [1000 + inds[0], 1000 + inds[0] + 7]
         hps = hps + [int(rng.integers(1, 20)), int(rng.integers(0, 20))]
-    truth = gen_catalog.make_tree(rng, slab_inds=inds, halos_per_slab=hps, compression=[None, 'zlib', None, 'blsc'][k % 4], cleaned_away_prob=0.3, zero_part_prob=0.25, smallratio=True, clean_layout=[1, 3, 2, 4][k % 4])
+    truth = gen_catalog.make_tree(rng, slab_inds=inds, halos_per_slab=hps, compression=[None, 'zlib', None, 'blsc'][k % 4], blsc_block=[48, None][k // 4 % 2], cleaned_away_prob=0.3, zero_part_prob=0.25, smallratio=True, clean_layout=[1, 3, 2, 4][k % 4])
     try:
         fsets = file_sets(rng, truth)
         fields_opts = ['DEFAULT_FIELDS', ['N', 'id', 'x_com'], ['id', 'sigmavMid_L2com', 'N'], 'all']
@@ -238,6 +238,31 @@ def tree_cases(run, rng, k):
                             catoracle.check_subsamples(run, got, truth, slabs, cleaned, AB, masks=masks, desc=dict(desc, check='filter'), key_prefix='filter-subsample')
                 if run.too_many():
                     return
+        # the catalogue named by a path relative to the working directory (from inside the simulation directory, and from
+        # inside halo_info itself where a file is named by its bare name): same result as with the absolute path
+        here = os.getcwd()
+        try:
+            ref_abs, e0 = catoracle.load(truth['path'], cleaned=True, fields=['N', 'id', 'x_com'], subsamples=dict(A=True, pid=True))
+            zdir = truth['path']
+            hi = os.path.join(zdir, 'halo_info')
+            first = sorted(os.listdir(hi))[0]
+            s0 = int(first.split('_')[-1].split('.')[0])
+            ref_one, e1 = catoracle.load(os.path.join(hi, first), cleaned=True, fields=['N', 'id', 'x_com'], subsamples=dict(A=True, pid=True))
+            for cwd, rel, ref_, slabs_ in ((os.path.dirname(zdir), os.path.basename(zdir), ref_abs, None), (hi, first, ref_one, [s0]), (zdir, os.path.join('halo_info', first), ref_one, [s0])):
+                os.chdir(cwd)
+                run.ev()
+                run.count('loads')
+                got, err = catoracle.load(rel, cleaned=True, fields=['N', 'id', 'x_com'], subsamples=dict(A=True, pid=True))
+                desc = dict(tree=k, slab_inds=inds, relative_path=rel, cwd_is=os.path.relpath(cwd, truth['root']))
+                if err is not None:
+                    if e0 is None and e1 is None:
+                        run.violation('load-fails-' + type(err).__name__, dict(error=f'{type(err).__name__}: {err}'[:300], **desc))
+                    continue
+                run.nt((k, 'relative-path', rel))
+                if ref_ is not None:
+                    compare_halos(run, got.halos, table_rows(ref_), dict(desc, check='relative path'), 'concatenation-differs')
+        finally:
+            os.chdir(here)
         # passthrough loads (raw column names) with a filter: the filter sees the raw table, the kept rows are the masked unfiltered rows
         if k % 2 == 0:
             for fields, filt_col in (('all', 'N_total'), (['id', 'N_total', 'x_L2com'], 'id'), ('all', 'id')):
